@@ -170,6 +170,22 @@ def ref_op(n, op):
             pairs.append((a, b))
         inner = _mget(n, attr)[0]
         return _mset(n, attr, ('m', inner[1], tuple(pairs)))
+    if k == 'stamp':
+        # the non-idempotent marker of mc/models.py: the n-th stamp of its family gets n, a repeated one +100
+        if n[0] != 'm':
+            return n
+        cur = _mget(n, op[1])
+        if cur:
+            return _mset(n, op[1], ('s', P + 'int', str(int(cur[0][2]) + 100)))
+        cnt = sum(1 for a, b in n[2] if a[0] == 's' and str(a[2]).startswith(op[1][:2]))
+        return _mset(n, op[1], ('s', P + 'int', str(cnt + 1)))
+    if k == 'share_attr':
+        # trees have no identity: the second attribute gets an equal node of its own
+        if n[0] == 'm' and _mget(n, op[1]) and not _mget(n, op[2]):
+            if len(_mget(n, op[1])) > 1:
+                raise Reject('attribute given twice')
+            return _mset(n, op[2], _mget(n, op[1])[0])
+        return n
     if k == 'scalar_to_attr':
         if n[0] == 's':
             return ('m', P + 'map', ((('s', P + 'str', op[1]), n),))
